@@ -140,6 +140,35 @@ def lean_doc_lines(cid, dlines, tk):
     return out
 
 
+def delocalise(lines):
+    """W lines written under a digit-grouping locale: a location id such as `id1,001` is rewritten to its plain form, and so is every
+    reference that names a written location of the same template; a reference that names no written location is marked"""
+    blocks, cur = [], []
+    for l in lines:
+        if l.split()[1] == "template" and cur:
+            blocks.append(cur)
+            cur = []
+        cur.append(l)
+    if cur:
+        blocks.append(cur)
+    out = []
+    for blk in blocks:
+        ids = {x[3:] for l in blk if l.split()[1] == "location" for x in l.split()[2:] if x.startswith("id=")}
+
+        def ref(x):
+            return x.replace(",", "") if x in ids else "UNRESOLVED(%s)" % x
+        for l in blk:
+            w = l.split()
+            if w[1] == "location":
+                w = [("id=" + x[3:].replace(",", "")) if x.startswith("id=") else x for x in w]
+            elif w[1] == "init":
+                w = [("ref=" + ref(x[4:])) if x.startswith("ref=") else x for x in w]
+            elif w[1] == "transition":
+                w[2], w[4] = ref(w[2]), ref(w[4])
+            out.append(" ".join(w))
+    return out
+
+
 def norm_w(lines, tk):
     """harness 'W' lines -> the format of the driver's W/G lines (texts as keys, blanks as ~, controllable as 0/1)"""
     out = []
@@ -194,7 +223,7 @@ def field_key(a, b):
 
 def run_models(ctx, exe, drv, cases):
     """cases: {cid: xml}.  Returns per case a dict with real W, predicted W, spec G, shapes, crash flags."""
-    frames = [(cid, m.frame("write", cid, xml)) for cid, xml in cases.items()]
+    frames = [(cid, m.frame("writeL" if cid.startswith("L") else "write", cid, xml)) for cid, xml in cases.items()]
     blocks, crashed = m.run_batches(exe, [], frames)
     lean, tks = [], {}
     res = {}
@@ -222,6 +251,8 @@ def run_models(ctx, exe, drv, cases):
         r["fixed_spec"] = ["W" + l[1:] for l in lb if l.startswith("H ")]
         r["cfg"] = ([l for l in lb if l.startswith("CFG")] or [""])[0]
         r["real"] = norm_w([l for l in r["raw"] if l.startswith("W ")], tks[cid])
+        if cid.startswith("L"):
+            r["real"] = delocalise(r["real"])
         r["lean_ok"] = bool(lb)
     return res
 
@@ -363,6 +394,20 @@ def run(ctx):
             inject_shape(M, r)            # exactly one kind of exception shape
         cases["c%d" % i] = m.XmlText(None).render(M)
         models["c%d" % i] = M
+    # the same under a global locale that groups digits, including a template with more than a thousand locations (ids above 999)
+    for i in range(0, n, 16):
+        cases["Lc%d" % i] = cases["c%d" % i]
+        models["Lc%d" % i] = models["c%d" % i]
+    big = ['<?xml version="1.0" encoding="utf-8"?><nta><declaration>int v;</declaration><template><name>Big</name>']
+    nb = 1012
+    big += ['<location id="id%d"><name>B%d</name></location>' % (k, k) for k in range(nb)]
+    big.append('<init ref="id%d"/>' % (nb - 3))
+    big += ['<transition><source ref="id%d"/><target ref="id%d"/><label kind="guard">v &gt;= %d</label></transition>' % (a, b_, a % 7)
+            for a, b_ in ((nb - 3, 5), (5, nb - 1), (nb - 1, 1003), (1003, 998), (998, nb - 3), (1, 2))]
+    big.append("</template><system>system Big;</system></nta>")
+    for cid in ("cbig", "Lcbig"):
+        cases[cid] = "\n".join(big)
+        models[cid] = None
     t1 = time.time()
     res = run_models(ctx, exe, drv, cases)
     cov["run_s"] = round(time.time() - t1, 1)
@@ -392,7 +437,7 @@ def run(ctx):
         if mism:
             mismatches.append((cid, mism))
     cov.update({"evaluations": len(acc), "correspondence_cases": len(acc), "correspondence_disagreements": len(mismatches) + len(viol_cases),
-                "distinct_nontrivial": len({json.dumps(m.model_stats(models[c])) + str(sorted(res[c]["shapes"])) for c in acc}),
+                "distinct_nontrivial": len({json.dumps(m.model_stats(models[c])) + str(sorted(res[c]["shapes"])) for c in acc if models[c] is not None}),
                 "distribution": stats,
                 "rule": "graph read from the written file with libxml2's tree API == graphOf(document) (drv_c20 'G' lines); deviations only "
                         "as predicted by the writer model for the computed exception shapes",
@@ -401,18 +446,23 @@ def run(ctx):
         ctx.finding(k, w, {"xml": cases[cid], "written": res[cid]["real"], "document_graph": res[cid]["spec"], "crash": res[cid]["crash"]})
     for k, (w, cid) in list(viol_cases.items())[:5]:
         M = models[cid]
+        sid = "Ls" if cid.startswith("L") else "s"        # shrink under the same locale
 
         def still(N, k=k):
-            rr = run_models(ctx, exe, drv, {"s": m.XmlText(None).render(N)})["s"]
+            rr = run_models(ctx, exe, drv, {sid: m.XmlText(None).render(N)})[sid]
             return rr["accepted"] and k in [x[0] for x in judge(rr)[1]]
-        try:
-            M2 = m.shrink(M, still, budget=60 if not ctx.thorough else 200)
-        except Exception as ex:
-            ctx.log("shrink failed", ex)
-            M2 = M
-        xml = m.XmlText(None).render(M2)
-        rr = run_models(ctx, exe, drv, {"s": xml})["s"]
-        ctx.finding(k, w, {"entry": "parse_XML_buffer + write_XML_file, read back with libxml2 tree API", "xml": xml,
+        if M is None:
+            xml = cases[cid]
+        else:
+            try:
+                M2 = m.shrink(M, still, budget=60 if not ctx.thorough else 200)
+            except Exception as ex:
+                ctx.log("shrink failed", ex)
+                M2 = M
+            xml = m.XmlText(None).render(M2)
+        rr = run_models(ctx, exe, drv, {sid: xml})[sid]
+        ctx.finding(k, w, {"entry": "parse_XML_buffer + write_XML_file, read back with libxml2 tree API"
+                                    + (" (global locale with digit grouping installed first)" if sid == "Ls" else ""), "xml": xml,
                            "xml_b64": base64.b64encode(xml.encode()).decode(), "written": rr.get("real"),
                            "document_graph": rr.get("spec"), "model_prediction": rr.get("pred"), "crash": rr.get("crash")})
     if mismatches and not viol_cases:
